@@ -401,10 +401,15 @@ func c17Strings(c *core.Ctx, ev *eval.Evaluator, tabs *Tables) {
 			}
 			rec := &eval.StructVal{F: map[string]eval.Value{"ID": eval.S("id1"), "Description": eval.S("id1 desc"), "Seq": seq, "Idx": eval.K(7),
 				"Score": eval.K(0), "Count_A": eval.K(0), "Count_T": eval.K(0), "Count_G": eval.K(0), "Count_C": eval.K(0)}}
+			before := eval.Show(rec.F["Seq"])
 			res, err := ev.CallMethod(fn, rec)
 			if err != nil {
 				bad = append(bad, fmt.Sprintf("undecided: %v", err))
 				break
+			}
+			if after := eval.Show(rec.F["Seq"]); after != before {
+				bad = append(bad, fmt.Sprintf("%q: the method changed the record it was called on (%s -> %s): complementing it again is no longer the complement of the original", in, before, after))
+				continue
 			}
 			out, ok := res.(*eval.StructVal)
 			if !ok {
